@@ -617,3 +617,15 @@ crate::harnesses! {
     #[cfg_attr(kani, kani::unwind(17))] #[cfg_attr(kani, kani::stub(alloc::fmt::format, fmt_stub))] fn c17_der_uintref_w65() { der_ref_dec::<65, 2, 13>(1) }
     #[cfg_attr(kani, kani::unwind(17))] #[cfg_attr(kani, kani::stub(alloc::fmt::format, fmt_stub))] fn c17_der_anyref_w65() { der_ref_dec::<65, 2, 13>(2) }
 }
+
+/// NATIVE-ONLY registration of `from_der` end to end (more than 180 s under CBMC): executed by the native sweep (bounded)
+#[cfg(not(kani))]
+pub mod native {
+    use super::*;
+    crate::harnesses! {
+        fn c17nd_from_der_w8() { der_from_der::<8, 1, 4>() }
+        fn c17nd_from_der_w64() { der_from_der::<64, 1, 11>() }
+        fn c17nd_from_der_w65() { der_from_der::<65, 2, 12>() }
+        fn c17nd_from_der_w128() { der_from_der::<128, 2, 19>() }
+    }
+}
